@@ -1,3 +1,6 @@
 Check (C02_reader_recovers_every_built_box : forall t0 t1 t2 t3 p r, (8 + len p < 4294967296)%N -> parse_box (build_box [t0; t1; t2; t3] p ++ r) = Some ([t0; t1; t2; t3], p, r)).
 Check (C02_init_segment_is_wellformed : forall c : frag_config, (len (init_segment_bytes c) < 4294967296)%N -> check_init_structure (init_segment_bytes c) = true).
 Check (C02_media_segment_is_wellformed : forall (l : list frag_sample) (seq base : N), seg_fits l -> (96 + 16 * len l < 2147483648)%N -> (seq < 4294967296)%N -> (base < 18446744073709551616)%N -> check_segment_structure (build_media_segment l seq base) = true).
+Check (C02_moov_parses : forall v vt audio c m, (len (build_moov_box v vt audio c m) < 4294967296)%N -> exists kids p, parse_forest 11 (build_moov_box v vt audio c m) = Some [Box T_moov p kids]).
+Check (C02_finished_file_is_wellformed : forall b m0 ops m rs s, build b [] = inl m0 -> run m0 ops = (m, rs) -> In (RStats s) rs -> (len (sink_of m) < 4294967296)%N ->
+  check_file_structure (match m_audio m0 with Some _ => true | None => false end) (sink_of m) = true).
